@@ -9,6 +9,14 @@ _SRV = (" Redis and RabbitMQ are in-process server models (harness/fredis.py, ha
 _WORKER = ("Generated worker scenarios run by a real repid Worker on a deterministic virtual-time event loop against an independent "
            "reference model; statistical coverage (no exhaustiveness claimed), sensitivity shown by the mutants in tools/mutant_table.py.")
 CHECKS = [
+ {"property_id": "C01", "level": "fault_enumeration", "design_ref": "DESIGN.md §4 C01",
+  "technique": "model-based stateful property-based testing of broker-API histories with step-indexed cancellation injection, 3 brokers",
+  "text": "Generated histories (enqueue/start/consume/ack/nack/reject/requeue/finish/advance, any call cancellable after k loop steps) are "
+          "executed against the real broker classes and a lifecycle reference model; broker-side state is probed after every operation "
+          "(conservation: exactly one place per live message; cancelled calls leave the pre- or post-state). Cancellation points are "
+          "loop-step indices on a deterministic loop, so a failing interleaving replays exactly. Statistical over histories; the thorough "
+          "tier additionally enumerates every cancellation step of every terminal call over a pool of pre-states.",
+  "note": _MODEL + _SRV + " One open known finding (D9: RabbitMQ requeue is ack+publish, not atomic) is excluded by signature."},
  {"property_id": "C02", "level": "exploration", "design_ref": "DESIGN.md §4 C02",
   "technique": "scenario property-based testing (Hypothesis) with scripted actors against a decision-table reference model, 3 brokers",
   "text": _WORKER + " Oracle = exact expected sequence of terminal broker calls per delivery (op, retry counter), body execution counts, "
